@@ -634,27 +634,34 @@ def fit_latlon(ctx, sill):
 
 
 # --- r2 score ---------------------------------------------------------------------------------------
-@contract(P, "fit_variogram/r2-score", params=[{"data": d} for d in ("iso", "dir")], functions=FN, nsamples=2,
-          search=20, timeout=20)
+@contract(P, "fit_variogram/r2-score", params=[{"data": d} for d in ("iso", "dir", "latlon")], functions=FN,
+          nsamples=2, search=20, timeout=20)
 def fit_r2(ctx, data):
-    dim = 2 if data == "dir" else 1
-    n = 2 * dim
-    if data == "iso":
+    m = ctx.m
+    dim = 2 if data == "dir" else (3 if data == "latlon" else 1)
+    nd = 2 if data == "dir" else 1
+    n = 2 * nd
+    if data in ("iso", "latlon"):
         y = [ctx.real("y%d" % i, lo=0.2 + 0.3 * i, hi=0.4 + 0.3 * i) for i in range(n)]
     else:       # concrete variogram values for the two directions (keeps the hypotheses linear)
         y = [0.25, 0.5, 0.375, 0.75]
     mean_y = sum(y) / n
     ss_tot = sum((v - mean_y) * (v - mean_y) for v in y)
     ctx.require(ctx.gt(ss_tot, 0))
-    yarr = arr(ctx, y).reshape(dim, 2) if dim > 1 else arr(ctx, y)
-    R = run_fit(ctx, "Gaussian", dim, {}, "none", 1, anis_mode="fit", directional=(data == "dir"), x=X2, y=yarr,
-                return_r2=True, check=())
+    yarr = arr(ctx, y).reshape(nd, 2) if nd > 1 else arr(ctx, y)
+    R = run_fit(ctx, "Gaussian", dim, {}, "none", 1, anis_mode=("off" if data == "latlon" else "fit"),
+                directional=(data == "dir"), x=X2, y=yarr, return_r2=True, check=(), latlon=(data == "latlon"))
     model, ret = R["model"], R["ret"]
     ctx.ensure("returns-three-values", len(ret) == 3)
-    # the final curve: the fitted model evaluated at the bin centres (per main axis for directional data)
+    # the final curve: the fitted model evaluated at the bin centres (per main axis for directional data;
+    # for lat-lon models the bin centres are great-circle distances and the fitted curve is the variogram at
+    # the associated chordal distance 2 R sin(d / (2 R)) -- the same curve curve_fit was given)
     xs = arr(ctx, X2)
+    if data == "latlon":
+        geo = R["a0"]["geo_scale"]
+        xs = arr(ctx, [2 * geo * m.sin(v / (2 * geo)) for v in X2])
     curve = []
-    for i in range(dim if data == "dir" else 1):
+    for i in range(nd):
         curve += list(model.vario_axis(xs, axis=i)) if data == "dir" else list(model.variogram(xs))
     ss_res = sum((v - c) * (v - c) for v, c in zip(y, curve))
     ctx.ensure("r2=1-ss_res/ss_tot", ctx.eq(ret[2], 1 - ss_res / ss_tot))
